@@ -41,8 +41,16 @@ ASSUMPTIONS = [
 WARN_WORDS = ("outside", "range")
 
 
+def _given(case):
+    """`given` as a dict (ToJson writes a function with an empty domain - nothing passed - as [])"""
+    g = case["in"]["given"]
+    return g if isinstance(g, dict) else {}
+
+
 def _arg(case, name):
-    g = case["in"]["given"][name]
+    if name in case.get("_override", ()):  # array-valued input of a series call
+        return case["_override"][name]
+    g = _given(case)[name]
     mag = float(physq.frac(g["mag"]))
     if g["unit"] == "none":
         return mag
@@ -51,73 +59,98 @@ def _arg(case, name):
 
 def _opt(case, **names):
     """optional arguments: passed (under the code's keyword) only if the case hands them over"""
-    return {kw: _arg(case, a) for kw, a in names.items() if a in case["in"]["given"]}
+    return {kw: _arg(case, a) for kw, a in names.items() if a in _given(case)}
 
 
 def _plain(case, name):
     return physq.frac(case["in"]["args"][name])
 
 
+_BACKENDS = {"math": lambda: __import__("math"), "numpy": lambda: __import__("numpy"), "sympy": lambda: "sympy"}
+
+
 def _build(case):
-    """the call, as a thunk"""
+    """the call, as a thunk.  Arguments are passed (by keyword) only if the case hands them over
+    (`given`); the `warn` / `backend` keywords only if the case sets them (`opts`)."""
     from chempy.units import default_units as u, default_constants as consts
     i = case["in"]
     fn = i["fn"]
     mode = i["mode"]
+    opts = i.get("opts") or {}
     # the units object is passed iff the configuration says so (for relations without a `constants`
     # argument: whenever the inputs are quantities)
     units = u if mode.get("uobj", mode["name"] != "unitless") else None
+    wkw = {} if opts.get("warn", "default") == "default" else {"warn": opts["warn"] == "on"}
+    bkw = {} if opts.get("backend", "default") == "default" else {"backend": _BACKENDS[opts["backend"]]()}
     if fn == "water_density":
         from chempy.properties.water_density_tanaka_2001 import water_density
-        T = _arg(case, "T")
-        kw = _opt(case, T0="Tz")
-        return lambda: water_density(T, units=units, **kw)
+        kw = _opt(case, T="T", T0="Tz")
+        kw.update(wkw)
+        if opts.get("coef"):
+            kw["a"] = water_density(just_return_a=True, units=units)
+        return lambda: water_density(units=units, **kw)
     if fn == "water_viscosity":
         from chempy.properties.water_viscosity_korson_1969 import water_viscosity
-        T = _arg(case, "T")
-        kw = _opt(case, eta20="eta20")
-        return lambda: water_viscosity(T, units=units, **kw)
+        kw = _opt(case, T="T", eta20="eta20")
+        kw.update(wkw)
+        return lambda: water_viscosity(units=units, **kw)
     if fn == "water_diffusion":
         from chempy.properties.water_diffusivity_holz_2000 import water_self_diffusion_coefficient
-        T = _arg(case, "T")
-        return lambda: water_self_diffusion_coefficient(T, units=units)
+        kw = _opt(case, T="T")
+        kw.update(wkw)
+        if opts.get("err_mult"):
+            kw["err_mult"] = (float(_plain(case, "em0")), float(_plain(case, "em1")))
+        return lambda: water_self_diffusion_coefficient(units=units, **kw)
     if fn == "water_permittivity":
         from chempy.properties.water_permittivity_bradley_pitzer_1979 import water_permittivity
-        T, P = _arg(case, "T"), _arg(case, "P")
-        return lambda: water_permittivity(T, P, units=units)
+        kw = _opt(case, T="T", P="P")
+        kw.update(wkw)
+        kw.update(bkw)
+        if opts.get("coef"):
+            kw["U"] = water_permittivity(just_return_U=True, units=units)
+        return lambda: water_permittivity(units=units, **kw)
     if fn == "sulfuric_acid_density":
         from chempy.properties.sulfuric_acid_density_myhre_1998 import sulfuric_acid_density
-        T = _arg(case, "T")
         w = float(_plain(case, "w"))
-        kw = _opt(case, T0="Tz")
-        return lambda: sulfuric_acid_density(w, T, units=units, **kw)
+        kw = _opt(case, T="T", T0="Tz")
+        kw.update(wkw)
+        return lambda: sulfuric_acid_density(w, units=units, **kw)
     if fn == "density_from_concentration":
         from chempy.properties.sulfuric_acid_density_myhre_1998 import density_from_concentration
-        T, M = _arg(case, "T"), _arg(case, "M")
+        M = _arg(case, "M")
         c = i["conc"]
         cval = physq.bigdec(c["bdq"]["num"]) / physq.bigdec(c["bdq"]["den"]) * physq.frac(c["mul"])
         conc = float(cval) if c["unit"] == "none" else float(cval) * physq.UNITS[c["unit"]]
-        return lambda: density_from_concentration(conc, T, molar_mass=M, units=units, maxiter=60)
+        kw = _opt(case, T="T", atol="atol")
+        kw.update(wkw)
+        return lambda: density_from_concentration(conc, molar_mass=M, units=units, maxiter=60, **kw)
     if fn == "lg_solubility_ratio":
         from collections import OrderedDict
         from chempy.properties.gas_sol_electrolytes_schumpe_1993 import lg_solubility_ratio
         ions = i["names"]["ions"]
-        d = OrderedDict([(ions[0], _arg(case, "c1")), (ions[1], _arg(case, "c2"))])
+        d = OrderedDict((k, _arg(case, a)) for k, a in zip(ions, ("c1", "c2", "c3")))
         gas = i["names"]["gas"]
-        return lambda: lg_solubility_ratio(d, gas, units=units)
+        return lambda: lg_solubility_ratio(d, gas, units=units, **wkw)
     if fn.startswith("henry"):
-        from chempy.henry import Henry, HenryWithUnits
+        from chempy.henry import Henry, HenryWithUnits, Henry_H_at_T
         T, H0, Td = _arg(case, "T"), _arg(case, "H0"), _arg(case, "Td")
         kw = _opt(case, T0="T0")
+        via = opts.get("via", "class")
+        if via == "function":  # the module-level function
+            if fn != "henry_H":
+                raise core.MachineryFailure("via=function only for henry_H")
+            return lambda: Henry_H_at_T(T, H0, Td, units=units, **dict(kw, **bkw))
         obj = Henry(H0, Td, **kw) if units is None else HenryWithUnits(H0, Td, **kw)
         if fn == "henry_H":
-            return lambda: obj(T)
+            if via == "alias":
+                return lambda: obj.get_kH_at_T(T, **bkw)
+            return lambda: obj(T, **bkw)
         if fn == "henry_c":
             P = _arg(case, "P")
-            return lambda: obj.get_c_at_T_and_P(T, P)
+            return lambda: obj.get_c_at_T_and_P(T, P, **bkw)
         if fn == "henry_P":
             c1 = _arg(case, "c1")
-            return lambda: obj.get_P_at_T_and_c(T, c1)
+            return lambda: obj.get_P_at_T_and_c(T, c1, **bkw)
         P = _arg(case, "P")
         return lambda: obj.get_P_at_T_and_c(T, obj.get_c_at_T_and_P(T, P))
     if fn == "nernst":
@@ -125,7 +158,7 @@ def _build(case):
         T, c1, c2 = _arg(case, "T"), _arg(case, "c1"), _arg(case, "c2")
         z = int(_plain(case, "z"))
         k = consts if mode["consts"] else None
-        return lambda: nernst_potential(c1, c2, z, T, constants=k, units=units)
+        return lambda: nernst_potential(c1, c2, z, T, constants=k, units=units, **bkw)
     if fn == "mobility":
         from chempy.einstein_smoluchowski import electrical_mobility_from_D
         T, D = _arg(case, "T"), _arg(case, "D")
@@ -174,6 +207,13 @@ def judge(case, obs):
     if obs["raised"]:
         if exp.get("refusal") and (obs["exc"] or "").startswith(exp["refusal"]):
             return "refused"
+        if exp["kind"] == "term":
+            try:
+                _expected_value(exp)
+            except terms.Undefined:
+                # the law has no real value at this (out-of-range) point: an arithmetic error of the
+                # backend (math.log of a negative number) is as good as numpy's nan; not judged
+                return "undefined"
         return "raised"
     v = obs.pop("_raw")
     want_dims = _dimdict(exp["dim"])
@@ -213,13 +253,16 @@ def _key(case, why):
     m = case["in"]["mode"]
     return {"fn": case["in"]["fn"], "mode": m["name"], "constants": "object" if m["consts"] else "none",
             "units_arg": "object" if m.get("uobj", m["name"] != "unitless") else "none",
+            "opts": "+".join("%s=%s" % (k, v) for k, v in sorted((case["in"].get("opts") or {}).items())
+                             if v not in ("default", "class", False)),
             "clause": why}
 
 
 def _short_in(case):
     i = case["in"]
     return dict(fn=i["fn"], mode=i["mode"], args=i["args"], sel=i["sel"], impl=i.get("impl", True),
-                given={k: [v["mag"], v["unit"]] for k, v in i["given"].items()})
+                opts=i.get("opts"),
+                given={k: [v["mag"], v["unit"]] for k, v in _given(case).items()})
 
 
 def _expected_view(case):
@@ -240,22 +283,57 @@ SERIES = {
 
 
 def series_trace(item):
-    """item: (fn, fixed args, [T hundredths...]) -> trace events with the observed quantised values"""
-    fn, fixed, ts = item
-    evs = []
-    for t in ts:
+    """item: (fn, fixed args, [T hundredths...], mode, arr) -> trace events with the observed quantised values.
+    arr=False: one call per temperature; arr=True: ONE call with the whole temperature array."""
+    import numpy as np
+    item = tuple(item) + ("unitless", False)[len(item) - 3:]
+    fn, fixed, ts, mode, arr = item[:5]
+    unit = {"water_density": "kg/m3", "water_viscosity": "cP", "water_permittivity": "1",
+            "sulfuric_acid_density": "kg/m3", "water_diffusion": "m2/s"}[fn]
+
+    def mk(tval):
         args = dict(fixed)
-        args["T"] = [t, 100]
-        case = {"in": {"fn": fn, "mode": {"name": "unitless", "consts": False, "uobj": False}, "args": args, "sel": 0,
-                       "given": {k: {"mag": v, "unit": "none", "mul": [1, 1]} for k, v in args.items() if k in ("T", "P")},
-                       "names": {"ions": [], "gas": ""}, "conc": None}}
-        o = physq.observe(_build(case), WARN_WORDS)
+        args["T"] = tval
+        given = {}
+        for k, v in args.items():
+            if k in ("T", "P"):
+                given[k] = {"mag": v, "unit": "none" if mode == "unitless" else {"T": "K", "P": "bar"}[k], "mul": [1, 1]}
+        return {"in": {"fn": fn, "mode": {"name": mode, "consts": False, "uobj": mode != "unitless"}, "args": args,
+                       "sel": 0, "given": given, "names": {"ions": [], "gas": ""}, "conc": None, "opts": {}}}
+
+    evs = []
+    if not arr:
+        obs = []
+        for t in ts:
+            o = physq.observe(_build(mk([t, 100])), WARN_WORDS)
+            if o["raised"]:
+                return None, dict(fn=fn, T=t, exc=o["exc"])
+            obs.append((physq.magnitude_in(o["value"], unit), o["warned"]))
+        warned_call = False
+    else:
+        case = mk([0, 1])
+        tarr = np.array([float(Fraction(t, 100)) for t in ts])
+        if mode != "unitless":
+            tarr = tarr * physq.UNITS["K"]
+        # the array replaces the scalar temperature of the case (structure only)
+        case["_override"] = {"T": tarr}
+        call = _build(case)
+        o = physq.observe(call, WARN_WORDS)
         if o["raised"]:
-            return None, dict(fn=fn, T=t, exc=o["exc"])
-        y = int(round(Fraction(float(o["value"])) * 10 ** SERIES[fn]))
-        evs.append({"k": "sample", "fn": fn, "T": [t, 100], "P": args.get("P", [0, 1]), "w": args.get("w", [0, 1]),
-                    "y": y, "qexp": SERIES[fn], "warned": o["warned"]})
-    evs.append({"k": "result", "n": len(ts)})
+            return None, dict(fn=fn, T="array", exc=o["exc"])
+        v = o["value"]
+        vals = (v / physq.UNITS[unit]).simplified.magnitude if physq.is_quantity(v) else np.asarray(v)
+        vals = np.asarray(vals, dtype=float).ravel()
+        if len(vals) != len(ts):
+            return None, dict(fn=fn, T="array", exc="result has %d elements for %d temperatures" % (len(vals), len(ts)))
+        obs = [(float(x), False) for x in vals]
+        warned_call = o["warned"]
+    for t, (val, w) in zip(ts, obs):
+        y = int(round(Fraction(val) * 10 ** SERIES[fn]))
+        evs.append({"k": "sample", "fn": fn, "mode": mode, "arr": bool(arr), "T": [t, 100],
+                    "P": fixed.get("P", [0, 1]), "w": fixed.get("w", [0, 1]),
+                    "y": y, "qexp": SERIES[fn], "warned": w})
+    evs.append({"k": "result", "n": len(ts), "arr": bool(arr), "warned": warned_call})
     return evs, None
 
 
@@ -288,6 +366,9 @@ def run(ctx):
         if why == "refused":
             ctx.skip("documented-refusal (NoConvergence) accepted by the spec at this point")
             continue
+        if why == "undefined":
+            ctx.skip("law-undefined-at-point: the call raised (backend domain error); not judged")
+            continue
         if not why and not obs["raised"] and obs.get("expected_value") is None:
             ctx.skip("law-undefined-at-point: value not judged (warning judged)")
         if why:
@@ -309,6 +390,15 @@ def run(ctx):
         ("water_permittivity", {"P": [1000, 1]}, list(range(27315, 62315 + 1, 4 * step))),
         ("sulfuric_acid_density", {"w": [1, 2]}, list(range(27315, 32315 + 1, 2 * step))),
         ("sulfuric_acid_density", {"w": [1, 10]}, [27315, 29800, 32315]),
+        # the same series in default units, and as ONE array-valued call (plain and with units),
+        # including arrays that leave the validity range (a warning for the whole call)
+        ("water_density", {}, list(range(27315, 31315 + 1, 2 * step)), "units", False),
+        ("water_density", {}, list(range(27315, 31315 + 1, step)), "unitless", True),
+        ("water_density", {}, list(range(27315, 31315 + 1, 2 * step)) + [31400, 32000], "units", True),
+        ("water_viscosity", {}, list(range(27315, 37315 + 1, 2 * step)), "units", True),
+        ("water_viscosity", {}, [27000] + list(range(27315, 37315 + 1, 4 * step)), "unitless", True),
+        ("water_permittivity", {"P": [1, 1]}, list(range(27315, 62315 + 1, 4 * step)), "units", True),
+        ("water_permittivity", {"P": [1000, 1]}, list(range(27315, 62315 + 1, 8 * step)) + [63000], "unitless", True),
     ]
     traces = []
     for it in items:
@@ -320,7 +410,7 @@ def run(ctx):
         traces.append(tr)
     verdicts = ctx.validate_traces("PhysPropsTrace", "PhysPropsTrace.cfg", traces)
     for tr, (v, pos, clause) in zip(traces, verdicts):
-        ctx.ran(core.stable_hash([tr[0]["fn"], tr[0]["P"], tr[0]["w"], len(tr)]), n=len(tr) - 1)
+        ctx.ran(core.stable_hash([tr[0]["fn"], tr[0]["P"], tr[0]["w"], tr[0]["mode"], tr[0]["arr"], len(tr)]), n=len(tr) - 1)
         if v == "accept":
             continue
         if clause.startswith("step:") or clause in ("no-result-event", "count"):
@@ -335,7 +425,7 @@ def run(ctx):
 def replay(ctx, rec):
     if rec.get("direction") == "spec->code":
         why, obs = replay_case(rec["case"])
-        if why and why != "refused":
+        if why and why not in ("refused", "undefined"):
             ctx.violation(rec["key"], {"observed": obs, "expected": _expected_view(rec["case"])})
     else:
         tr = rec["trace"]
@@ -346,7 +436,8 @@ def replay(ctx, rec):
             fixed["P"] = tr[0]["P"]
         if tr[0]["fn"] == "sulfuric_acid_density":
             fixed["w"] = tr[0]["w"]
-        tr2, err = series_trace((tr[0]["fn"], fixed, [e["T"][0] for e in tr if e["k"] == "sample"]))
+        tr2, err = series_trace((tr[0]["fn"], fixed, [e["T"][0] for e in tr if e["k"] == "sample"],
+                                 tr[0].get("mode", "unitless"), tr[0].get("arr", False)))
         if tr2 is None:
             ctx.violation(rec["key"], {"observed": err, "verdict": "call raised"})
             return
